@@ -14,7 +14,7 @@ from ..gen_roland import safe_name
 PROP = "C03"
 LEVEL = "exploration"
 RUNS = {"quick": 2500, "thorough": 120000}
-TIME_CAP = {"quick": 300, "thorough": 1500}
+TIME_CAP = {"quick": 300, "thorough": 900}
 RULE = ("seeded cue sheets of 1-6 AUDIO tracks with strictly increasing first indices (one or several INDEX lines, with or without "
         "TITLE) over bins whose length is last-index*2352 + tail, tail drawn from {0..5, 2351, 2352, 2353, random}; opened through "
         "the virtual-FS seam; seeded transcoder block size; non-trivial = bin length not a multiple of 2352 or of 4, or >=2 tracks; "
